@@ -206,7 +206,7 @@ def check_config(rep, prog):
         r_ = A.deref_all(it_, it_.call_body(prog.body(p), [S.ref_to(color(["c0", "c1", "c2"])), S.ref_to(diff)], env={"DIM": 3}))
         return chans(it_, r_)
     try:
-        paths4 = S.explore(run_add, max_paths=16)        # `if d < 0 { .. } else { .. }` on a symbolic difference forks
+        paths4 = S.explore(run_add, max_paths=96)        # `if d < 0 { .. } else { .. }` / a hand-written clamp per channel forks
     except (A.Undecided, A.Panic) as e:
         raise common.Infra("C16: %s could not be evaluated symbolically (%s)" % (p, e))
     cs = paths4[0][1]
@@ -218,7 +218,42 @@ def check_config(rep, prog):
         if not (isinstance(cl, tuple) and cl[0] == "symop" and cl[1] == "iclamp" and cl[3] == (0, 255)):
             return False
         return S.to_poly(cl[2]) == {("c%d" % i,): Fraction(1), ("d%d" % i,): Fraction(1)}
-    ok4 = len(paths4) == 1 and len(cs) == 3 and all(is_sat(v, i) for i, v in enumerate(cs))
+    def proved(v, i, trace):
+        """channel i equals clamp(c_i + d_i, 0, 255) on the path with this trace: the clamp spelling itself, or a constant / a plain cast
+        under path conditions that bound c_i + d_i accordingly (a clamp written as comparisons)"""
+        if is_sat(v, i):
+            return True
+        want = {("c%d" % i,): Fraction(1), ("d%d" % i,): Fraction(1)}
+
+        def is_sum(t):
+            try:
+                return S.to_poly(t) == want
+            except (S.NotPolynomial, TypeError):
+                return False
+        lo, hi = None, None
+        for op, a_, b_, ans in trace:
+            for x, y, o in ((a_, b_, op), (b_, a_, {"Lt": "Gt", "Gt": "Lt", "Le": "Ge", "Ge": "Le"}.get(op, op))):
+                if not (is_sum(x) and isinstance(y, int) and not isinstance(y, bool)):
+                    continue
+                k = y - (1 << 32) if y >= (1 << 31) else y
+                if not ans:
+                    o = {"Lt": "Ge", "Ge": "Lt", "Gt": "Le", "Le": "Gt", "Eq": "Ne", "Ne": "Eq"}[o]
+                if o == "Lt":
+                    hi = k - 1 if hi is None else min(hi, k - 1)
+                elif o == "Le":
+                    hi = k if hi is None else min(hi, k)
+                elif o == "Gt":
+                    lo = k + 1 if lo is None else max(lo, k + 1)
+                elif o == "Ge":
+                    lo = k if lo is None else max(lo, k)
+                elif o == "Eq":
+                    lo, hi = k, k
+        if isinstance(v, int) and not isinstance(v, bool):
+            return (v == 0 and hi is not None and hi <= 0) or (v == 255 and lo is not None and lo >= 255) or (lo is not None and lo == hi == v and 0 <= v <= 255)
+        if isinstance(v, tuple) and v[0] == "symop" and v[1] == "cast:u8" and is_sum(v[2]):
+            return lo is not None and hi is not None and lo >= 0 and hi <= 255
+        return False
+    ok4 = all(len(c_) == 3 and all(proved(v, i, t_) for i, v in enumerate(c_)) for t_, c_ in paths4)
     if not ok4 and all(len(c_) == 3 for _t, c_ in paths4):
         # another formula: refuted by a channel / difference pair on which it is not clamp(c + d, 0, 255), or left undecided
         def ev(v, pt):
@@ -304,7 +339,8 @@ def check_config(rep, prog):
         rep.inst("C16.K4", "Color<u8> + diff: another formula, refuted by channel %d + difference %d -> %s (saturation gives %d)" % wit, config=cfg)
         rep.violate("C16.K4", "K4|u8-add", prog.body(p).where(), "Color<u8> + diff does not saturate: channel %d + difference %d gives %s, clamp(c + d, 0, 255) is %d" % wit, config=cfg)
     else:
-        req(ok4, "K4", "u8-add", p, "Color<u8> + diff: channel = clamp(i32(c) + d, 0, 255) as u8 (saturates, never wraps)", cs)
+        req(ok4, "K4", "u8-add", p, "Color<u8> + diff: channel = clamp(i32(c) + d, 0, 255) as u8 (saturates, never wraps)%s" % (
+            "" if len(paths4) == 1 else " on each of the %d paths through its comparisons" % len(paths4)), cs)
     # ---- K5 accessors
     for space, names in (("Rgb", "rgb"), ("Rgba", "rgba"), ("Hsl", "hsl"), ("Hsla", "hsla")):
         col = color(["c%d" % i for i in range(len(names))])
@@ -330,7 +366,11 @@ def sector_rules(rep, prog):
         b = prog.inlined(b0, depth=2, pred=lambda cb: cb.path.startswith(C))
         sl = T.Slicer(b)
         sw = [(bi, blk["term"]) for bi, blk in enumerate(b.blocks) if blk["term"]["k"] == "SwitchInt" and len(blk["term"].get("targets", [])) >= 5]   # (the last sextant may be a range / catch-all arm)
-        rep.floor("C16.K6.%s.%s" % (label, cfg), len(sw), 1, "six-way sector switch in %s to_rgb" % label)
+        if not sw:
+            # no six-way switch (the arms are a table, say): the selector and the table are decided by evaluation alone (hue_value_rules)
+            rep.inst("C16.K6", "%s Hsl::to_rgb has no six-way sector switch: sextant selection and channel table are decided by evaluating the conversion at "
+                               "fixed hues only" % label, config=cfg)
+            continue
         bi, t = sw[0]
         d = T.strip(sl.operand(t["discr"]), sites=True, refs=True)
         if label == "f32":
@@ -463,6 +503,40 @@ def hue_value_rules(rep, prog):
             "; ".join(bad[:2]), " (hue 1 must equal hue 0)" if any(b.startswith("hue 1 ") for b in bad) else ""), config=cfg)
 
 
+def u8_hue_rules(rep, prog):
+    """K6 (values, 8-bit): Color3<Hsl>::to_rgb folded on the constants hsl(h, 255, 128) for hues at both ends and in the middle of every
+    sextant: with c = 255 and m = 0..1 the channels must be (about) 255, 255 x'/256 and 0 in the standard arrangement of the sextant
+    6h / 256, x' = 256 - |6h mod 512 - 256| - within the property's 8/255. Decides selector, table and the middle channel's ramp of the
+    8-bit conversion whatever its shape (match, table, helper)."""
+    cfg = prog.config
+    STD = {0: "cx0", 1: "xc0", 2: "0cx", 3: "0xc", 4: "x0c", 5: "c0x"}
+    path = COL + "::<[u8; 3], math::color::Hsl>::to_rgb"
+    body = prog.body(path)
+    bad = []
+    hues = (0, 21, 42, 43, 64, 85, 86, 107, 127, 128, 149, 170, 171, 192, 213, 214, 235, 255)
+    for h in hues:
+        it = S.interp(prog, models=MODELS, oracle=lambda op, a_, b_: None)
+        try:
+            r = A.deref_all(it, it.call_body(body, [color([h, 255, 128])]))
+            got = [A.deref_all(it, x) for x in S.components(it, r)]
+        except (A.Undecided, A.Panic) as e:
+            if isinstance(e, A.Panic):
+                bad.append("hsl(%d, 255, 128) panics (%s)" % (h, str(e)[:60]))
+                continue
+            raise common.Infra("C16.K6: the 8-bit to_rgb could not be folded for hue %d (%s)" % (h, e))
+        if len(got) != 3 or not all(isinstance(v, int) and not isinstance(v, bool) for v in got):
+            raise common.Infra("C16.K6: the 8-bit to_rgb did not fold to three constants for hue %d (%s)" % (h, str(got)[:80]))
+        k = (6 * h) // 256
+        xp = 256 - abs((6 * h) % 512 - 256)
+        want = {"c": 255.0, "x": 255.0 * xp / 256, "0": 0.0}
+        if any(abs(g - want[ch]) > 8 for g, ch in zip(got, STD[k])):
+            bad.append("hsl(%d, 255, 128) -> %s, expected about %s (sextant %d)" % (h, got, [round(want[ch]) for ch in STD[k]], k))
+    rep.inst("C16.K6", "8-bit Hsl::to_rgb folded at %d hues (both ends and the middle of every sextant, full saturation): sextant 6h/256, standard channel "
+                       "arrangement, middle channel 255 x'/256 within 8/255: %s" % (len(hues), not bad), config=cfg)
+    if bad:
+        rep.violate("C16.K6", "K6|hue-values-u8", body.where(), "Color3<Hsl>::to_rgb does not realise the standard hue ramp: %s" % "; ".join(bad[:3]), config=cfg)
+
+
 def check(rep, args):
     configs = ["ws"] if rep.tier == "quick" else common.ALL_CONFIGS
     rep.configs = configs
@@ -470,6 +544,7 @@ def check(rep, args):
         rep.guard(check_config, rep, facts.program(cfg))
         rep.guard(sector_rules, rep, facts.program(cfg))
         rep.guard(hue_value_rules, rep, facts.program(cfg))
+        rep.guard(u8_hue_rules, rep, facts.program(cfg))
         from .rules_C16_int import int_panic_rules
         rep.guard(int_panic_rules, rep, facts.program(cfg))
     cov = {
